@@ -260,5 +260,12 @@ example :
 example : (0 : Cls) ∉ recSubsI cexSchema table.recSubs cexSchema.depth 0 ∧ RelExact (SG.empty monotone) := by
   refine ⟨by decide, ?_⟩
   intro r hr; simp [SG.empty] at hr
+/-- non-vacuity of the liveness hypotheses of `addNode_eq_interp`, `ensure_eq_interp`, `getInstances_eq_interp`: a registry
+with one live wrapper; the two sides of `getInstances_eq_interp` on it -/
+example :
+    let g : SG Nat := (addNode monotone (SG.empty monotone) 0 1 0).1
+    (∀ w ∈ g.byClass, (fun _ => true) w.obj = true) ∧
+    getInstancesI cexSchema table g (fun _ => true) 0 = (instancesOfL (classesI cexSchema table .selfThenSubs 0) g).map some ∧
+    (ensureI table monotone (fun _ => true) g ⟨0, 1, 0⟩).2 = some ⟨0, 1, 0, 0⟩ := by decide
 
 end KrroodVerif.SG
